@@ -79,6 +79,7 @@ func init() {
 		p := fr.i.ex.env().abs(fr.i.ex.concStr(a[0]))
 		fr.i.ex.event("remove", p)
 		delete(fr.i.ex.env().files, p)
+		delete(fr.i.ex.yamlDocs, p) // the yaml documents registered for the file go with it (verifYamlDoc may register new ones)
 		return nilError()
 	}
 	I["os.IsNotExist"] = func(fr *frame, a []value) value {
